@@ -46,7 +46,8 @@ class Menu:
         return (t.replace('@LU@', LOCAL_USER)
                 .replace('@INCA@', world.inc_a)
                 .replace('@INCG@', os.path.join(world.globdir, '*.conf'))
-                .replace('@BASE@', world.base))
+                .replace('@BASE@', world.base)
+                .replace('@XLOG@', world.xlog))
 
     def crits(self, prog):
         out = set()
@@ -75,6 +76,7 @@ class World:
         self.inc_a = os.path.join(root, 'incA')
         self.second = os.path.join(root, 'config2')
         self.both = os.path.join(root, 'config_both')
+        self.xlog = os.path.join(root, 'xlog')
         self.x = ''
         self.globdir = os.path.join(root, 'g')
         self.base = os.path.join(root, 'base')
@@ -109,6 +111,20 @@ class World:
             # for ssh -G: the rule reads the second file as if it followed
             # the first one
             self._put(self.both, f'Include {self.main}\nInclude {self.second}\n')
+
+    def exec_reset(self):
+        try:
+            os.remove(self.xlog)
+        except OSError:
+            pass
+
+    def exec_log(self):
+        """The "Match exec" commands that were run, in order."""
+        try:
+            with open(self.xlog) as f:
+                return ['exec' + x for x in f.read().split()]
+        except OSError:
+            return []
 
     def paths(self):
         return [self.main, self.second] if self.x == 'list' else [self.main]
@@ -159,6 +175,7 @@ TYPED = ('ProxyJump', 'HostKeyAlias', 'BindAddress', 'IdentityAgent', 'Ciphers',
          'ForwardAgent', 'AddressFamily', 'RequestTTY', 'CanonicalizeHostname',
          'ConnectTimeout', 'ServerAliveInterval', 'ServerAliveCountMax',
          'RekeyLimit', 'SetEnv', 'GlobalKnownHostsFile', 'CertificateFile',
+         'CanonicalDomains', 'CanonicalizeMaxDots', 'CanonicalizeFallbackLocal',
          'PermitTTY', 'LoginGraceTime', 'MACs', 'HostKey')
 _FAMILY = {socket.AF_UNSPEC: 'any', socket.AF_INET: 'inet',
            socket.AF_INET6: 'inet6'}
@@ -202,19 +219,22 @@ def _cfg_out(cfg, host):
             str(cfg.get('User') or LOCAL_USER),
             list(cfg.get('IdentityFile', []) or []),
             list(cfg.get('SendEnv', []) or []),
-            _ukh(cfg), cfg.get('Tag') or '', typed_out(cfg)]
+            _ukh(cfg), cfg.get('Tag') or '', typed_out(cfg), []]
 
 
 def cli_first(world, target):
     """First pass alone: what SSHClientConfig.load returns (for a chain: the
     configuration of the derived options object)."""
     host, user, mode = target
+    world.exec_reset()
     try:
         if world.x == 'chain':
             return _cfg_out(chain(world, target)[1].config, host)
         c1 = SSHClientConfig.load(None, world.paths(), False, False, False,
                                   LOCAL_USER, user if user else (), host, ())
-        return _cfg_out(c1, host)
+        out = _cfg_out(c1, host)
+        out[8] = world.exec_log()
+        return out
     except Exception as exc:            # pylint: disable=broad-except
         return ('exc', type(exc).__name__, str(exc)[:160])
 
@@ -271,6 +291,9 @@ class Connector:
             raise _Refused('not connecting')
 
         async def getaddrinfo(host, port, **kwargs):
+            # the resolver knows <name>.c and nothing else
+            if not host.endswith('.c'):
+                raise socket.gaierror(socket.EAI_NONAME, 'unknown name')
             return [(socket.AF_INET, socket.SOCK_STREAM, 6, host,
                      ('10.0.0.9', port or 0))]
         self.loop.create_connection = create_connection
@@ -295,12 +318,17 @@ class Connector:
         if mode == 'canon':
             kw.update(canonicalize_hostname=True, canonical_domains=['c'])
         self.conn = None
+        world.exec_reset()
         self.asyncio.set_event_loop(self.loop)
         try:
             self.loop.run_until_complete(asyncssh.connect(host, **kw))
             return ('exc', 'connected?', '')
         except _Refused:
             pass
+        except OSError as exc:
+            if 'canonicalize' in str(exc):
+                return ['@CANONERR@']
+            return ('exc', type(exc).__name__, str(exc)[:160])
         except Exception as exc:        # pylint: disable=broad-except
             return ('exc', type(exc).__name__, str(exc)[:160])
         finally:
@@ -311,7 +339,7 @@ class Connector:
         return [str(o.host), str(o.port), str(o.username),
                 list(c.get('IdentityFile', []) or []),
                 list(c.get('SendEnv', []) or []),
-                _ukh(c), c.get('Tag') or '', typed_out(c)]
+                _ukh(c), c.get('Tag') or '', typed_out(c), world.exec_log()]
 
 
 def pred_typed(t):
@@ -319,10 +347,12 @@ def pred_typed(t):
 
 
 def pred_out(pred):
-    host, port, user, idf, env, ukh, tag, typed = pred
+    host, port, user, idf, env, ukh, tag, typed, ex = pred
+    if val(host) == '@CANONERR@':
+        return ['@CANONERR@']
     return [val(host), val(port), val(user), [val(x) for x in idf],
             [val(x) for x in env], [val(x) for x in ukh] or ['-'], val(tag),
-            pred_typed(typed)]
+            pred_typed(typed), list(ex)]
 
 
 def dedup(seq):
@@ -336,12 +366,12 @@ def dedup(seq):
 def norm(out):
     """List options are compared up to repetition (ssh drops repeated
     IdentityFile entries, and repeats SendEnv in its second pass)."""
-    if not isinstance(out, list):
+    if not isinstance(out, list) or len(out) < 9:
         return out
     typed = {n: (['l'] + dedup(v[1:]) if v and v[0] == 'l' else v)
              for n, v in out[7].items()}
     return [out[0], out[1], out[2], dedup(out[3]), dedup(out[4]), out[5],
-            out[6], typed]
+            out[6], typed, out[8]]
 
 
 # ---- second opinion ----
@@ -353,6 +383,7 @@ _env = re.compile(r'\$\{(.*?)\}')
 def ssh_G(world, target, tag):
     """Resolved values according to `ssh -G` (None if ssh failed)."""
     host, user, mode = target
+    world.exec_reset()
     cmd = ['ssh', '-G', '-F', world.both if world.x else world.main]
     if user:
         cmd += ['-l', user]
@@ -387,7 +418,8 @@ def ssh_G(world, target, tag):
     ukh = d.get('userknownhostsfile', '').split()
     return [d.get('hostname', host), d.get('port', '22'),
             d.get('user', LOCAL_USER), dedup(idf), dedup(d['sendenv']),
-            ['@EMPTY@'] if ukh == ['none'] else ukh, '', ssh_typed(raw)]
+            ['@EMPTY@'] if ukh == ['none'] else ukh, '', ssh_typed(raw),
+            world.exec_log()]
 
 
 _UNITS = {'k': 1024, 'm': 1024 ** 2, 'g': 1024 ** 3,
@@ -464,6 +496,8 @@ def ssh_applicable(menu, prog, target):
         return False                 # canonicalisation needs a resolver
     if 'tagged' in crits or 'Tag' in names:
         return False                 # OpenSSH 9.2 has no Tag / Match tagged
+    if 'CanonicalDomains' in names:
+        return False                 # ssh -G cannot resolve names here
     if 'final' in crits and 'canonical' in crits:
         return False                 # ssh treats "canonical" as "final pass"
     return True
@@ -477,6 +511,7 @@ def ssh_agrees(sshout, expected, ukh_set, names=()):
         sshout[3] == e[3] and sshout[4] == e[4]
     if ukh_set:
         ok = ok and sshout[5] == e[5]
+    ok = ok and sshout[8] == e[8]       # "Match exec" commands run
     for name in names:
         if name in sshout[7]:
             want = typed_for_ssh(name, e[7].get(name))
